@@ -113,4 +113,14 @@ theorem allValid_of_chainOk {β : Type} (D : List (Blk β) → Blk β → Desc) 
     · exact Or.inl h
     · exact Or.inr ⟨(oracle_all_iff D hD rest b).mp ⟨h0, h1, h2⟩, allValid_of_chainOk D hD g rest h3⟩
 
+open Chain in
+theorem chainOk_of_allValid {β : Type} (D : List (Blk β) → Blk β → Desc) (hD : ContextFree D) (g : Blk β) :
+    ∀ l, AllValid D g l → ChainOk (oracleOf D) g l
+  | [], h => h
+  | b :: rest, h => by
+    rcases h with h | ⟨hv, hr⟩
+    · exact Or.inl h
+    · have := (oracle_all_iff D hD rest b).mpr hv
+      exact Or.inr ⟨this.1, this.2.1, this.2.2, chainOk_of_allValid D hD g rest hr⟩
+
 end BV.C01.Lemmas
